@@ -15,7 +15,16 @@ CLAIMS = {
     "C03": ("Theorems for every possible outcome of the model of nuts::draw (all weights, U-turn / divergence / error predicates, options): tree is a 2^depth block containing start and draw, depth <= maxdepth, step-count bounds, |index| bound, draw was reached and no state inside the returned tree diverged, exact characterisation of the maxdepth flag, divergence lies outside the returned tree, dim 0; correspondence with the real tree builder under scripted RNG and faults + implementation-side audit of every draw.", "3 C03"),
     "C06": ("Coq theorems over the executable schedule model (tuning flag exact, transformation frozen from the final window, step-size state frozen after warmup, new() total on num_tune 0..2000) + correspondence of the model with all six presets through the public API and read accessors; two genuine defects were repaired by fix: commits", "3 C06"),
     "C09": ("Coq theorems over the executable schedule model (foreground estimator holds only the last two windows, switch iff full window and next window fits, windows grow, first change re-runs the search, late statistic) + full-state correspondence per draw and a bit-exact binary64 check of which acceptance statistic advanced the adaptation", "3 C09"),
+    "C05": ("Theorems for every outcome of the tree-builder model under arbitrary fault predicates: a divergent evaluation ends the transition at once and is reported, an unrecoverable one makes the call return Err, at most one faulty evaluation per transition and it is the last, the returned draw and every state of the returned tree are valid states, no-fault runs raise no flag, random_bool arguments are probabilities; binary64 divergence predicate total on NaN/inf. Tie: scripted-orbit correspondence under injected faults + fault sweep (kind x evaluation index) over presets through the public API. One genuine defect repaired (step-size search discarded unrecoverable errors).", "3 C05"),
+    "C07": ("Theorems over the exact-arithmetic model of dual averaging / Adam / the initial search: monotonicity in the acceptance history, upper bound ln(max_step_size) and finite lower bound, averaged step = documented weighted average (weights a distribution), Adam direction = sign of the smoothed acceptance error with its closed form, search brackets the target and evaluates <= 101 steps, acceptance statistics in [0,1]. Tie: bit-exact correspondence of the binary64 recurrences with DualAverage / Adam driven open loop + monotonicity/bound audits on the implementation. Partial: closed-loop acceptance near target is statistical, not a theorem.", "3 C07"),
+    "C08": ("Theorems: running mean exact, the variance accumulator is a quadratic form (scaling), zero iff constant, the diagonal update recovers mean and variance of a Gaussian coordinate exactly from any non-constant set of draws and whitens it (gradient = -position); binary64: for every bit pattern the scale-update kernels keep scales finite and strictly positive (clamp limits 1e-20/1e20), invalid estimates keep the previous value; necessity of the magnitude condition refuted for subnormal limits. Tie: bit-exact kernel correspondence on degenerate inputs + closed-loop exactness audit on Gaussians for diag and low-rank adaptation. Partial: the faer pipeline of the low-rank estimator is audited, not modelled.", "3 C08"),
+    "C10": ("Theorems over the LTS of the parallel sampler (all interleavings of user, controller and n chains accepted by step): recorded draw numbers of every chain are exactly 0..k-1 in order in every reachable state, frame (a chain event touches no other chain), chain count constant, stream ids injective and non-zero. Tie: event histories of real runs under seeded schedule perturbation replayed through step + bitwise comparison of traces with a sequential reference. Partial: OS scheduling is sampled, channel/mutex semantics assumed.", "3 C10"),
+    "C11": ("Theorems over the LTS: traces are prefixes of the full trace in every reachable state, Trace from wait_timeout implies every chain recorded exactly total draws, zero-draw runs record nothing, chains are never stuck outside the documented blocking receive, controller sends and user returns are enabled (calls return). Tie: replay of real event histories with user scripts (pause/resume/progress/flush/inspect/wait/abort), watchdog for hangs, counter audits. Two genuine defects repaired. Partial: liveness is enabledness of the modelled events, not a fairness proof.", "3 C11"),
+    "C12": ("Theorems over the LTS: after pause() returns a chain records at most (queued Resume messages + 1) further draws until the next command, at most one with mailbox [Pause]; blocked chains record nothing until a Resume is sent; a chain that finds Pause first does not draw; resume loses nothing (records contiguous). Tie: replay of event histories with a chain parked at a chosen schedule point when pause() is issued.", "3 C12"),
+    "C13": ("Theorems over the LTS: one result per finished chain, after any chain failure wait_timeout can never return Trace, abort() returns Ok((None,_)) only if no chain failed, returns answer the pending call, healthy chains unaffected. Tie: replay of event histories with injected faults (unrecoverable logp error at any evaluation, expand failure, model construction failure, all initial points bad). Three genuine defects repaired; one recorded known finding (unrecoverable error during a chain's initialisation is retried).", "3 C13"),
+    "C16": ("Theorems for ALL struct declarations of the derive(Storable) model (first-matching-arm semantics, names/get_all alignment under NoDup and no flattened Option, refutations for the excluded cases), macro table equal to the one extracted from the current nuts-derive source, the six regenerated preset declarations well formed, presence rules (event-only, identifying fields, all-or-none, update reported once). Tie: translator regenerating the declarations from /repo on every run + schema/rows/presence correspondence over 576 preset x flag x dimension cases. One genuine defect repaired (duplicate tuning statistic).", "3 C16"),
     "C17": ("Theorems over the lane-generic kernel model: index partition for every length and lane count, element-wise kernels equal the plain formula over Q for every lane count, reductions equal the plain sums for every power-of-two lane count (1,2,4,8) fused or not, finiteness tests, NaN propagation on binary64; bit-exact correspondence of the binary64 instance with CpuMath for every length 0..=130 on this host's instruction set. Partial: the floating-point error bound itself is not proved, only the association order is pinned.", "3 C17"),
+    "C18": ("Theorems (pending integration of proofs) over model/Mclmc.v: ESH update keeps the unit norm, step/halving loop accounting, trajectory switch once; tie: correspondence of the step/halving state machine and of the ESH update with real MCLMC chains (delegating Math backend, density faults).", "3 C18"),
 }
 ORDER = ["C%02d" % i for i in range(1, 20)]
 PENDING_REASON = "check not built yet in this round (work in progress; see DESIGN.md section 6 for the order)"
